@@ -62,6 +62,59 @@ NoRoot1(x, k) == IF k = 0 THEN <<>> ELSE
 NoRoot2(x, k) == IF k = 0 THEN <<>> ELSE
                  IF F2Legendre(E2!Rhs(x)) = -1 THEN <<x>> \o NoRoot2(F2Add(x, F2One), k - 1) ELSE NoRoot2(F2Add(x, F2One), k)
 
+
+(***************************************************************************)
+(* Points whose ordinate sits at a boundary of the sort-flag comparison:   *)
+(*  G1: y adjacent to (q-1)/2 on both sides;                               *)
+(*  G2: y in the base field (c1 = 0, so the lexicographic order falls      *)
+(*      through to c0) on both sides of (q-1)/2, and purely imaginary y.   *)
+(* They are found by solving x^3 = y^2 - b for x.  9 || q-1 and 9 || q^2-1,*)
+(* so a cube root of a cubic residue c is c^t (3t = 1 mod m, m = (|F*|)/9) *)
+(* corrected by a 9th root of unity.  Every point produced is certified    *)
+(* on the curve by the judges (and by the ASSUMEs below).                  *)
+(***************************************************************************)
+Nine == <<9>>
+M1 == Div(Sub(Q, One), Nine)
+M2 == Div(Sub(Mul(Q, Q), One), Nine)
+TOf(m) == IF Rem(Add(One, m), Three) = Zero THEN Div(Add(One, m), Three) ELSE Div(Add(One, Mul(Two, m)), Three)
+(* a cubic non-residue and the element of order 9 it yields *)
+RECURSIVE NonCube1(_)
+NonCube1(n) == IF FqPow(n, Mul(Three, M1)) # One THEN n ELSE NonCube1(FqAdd(n, One))
+Eta1 == FqPow(NonCube1(Two), M1)
+RECURSIVE NonCube2(_)
+NonCube2(n) == IF F2Pow(n, Mul(Three, M2)) # F2One THEN n ELSE NonCube2(F2Add(n, F2One))
+Eta2 == F2Pow(NonCube2(<<One, One>>), M2)
+RECURSIVE Fix1(_,_,_), Fix2(_,_,_)
+Fix1(c, r, j) == IF FqMul(r, FqSqr(r)) = c THEN <<TRUE, r>> ELSE IF j = 9 THEN <<FALSE, Zero>> ELSE Fix1(c, FqMul(r, Eta1), j + 1)
+Fix2(c, r, j) == IF F2Mul(r, F2Sqr(r)) = c THEN <<TRUE, r>> ELSE IF j = 9 THEN <<FALSE, F2Zero>> ELSE Fix2(c, F2Mul(r, Eta2), j + 1)
+Cbrt1(c) == IF c = Zero THEN <<TRUE, Zero>> ELSE IF FqPow(c, Mul(Three, M1)) # One THEN <<FALSE, Zero>> ELSE Fix1(c, FqPow(c, TOf(M1)), 0)
+Cbrt2(c) == IF c = F2Zero THEN <<TRUE, F2Zero>> ELSE IF F2Pow(c, Mul(Three, M2)) # F2One THEN <<FALSE, F2Zero>> ELSE Fix2(c, F2Pow(c, TOf(M2)), 0)
+
+HalfQ == Div(Sub(Q, One), Two)
+(* first k ordinates y = start + dir*d (d = 0, 1, ...) for which a point exists; dir = +1 / -1 *)
+RECURSIVE YScan1(_,_,_,_)
+YScan1(y, up, k, fuel) ==
+  IF k = 0 \/ fuel = 0 THEN <<>>
+  ELSE LET c == Cbrt1(FqSub(FqSqr(y), Four))
+           nxt == IF up THEN FqAdd(y, One) ELSE FqSub(y, One)
+       IN IF c[1] THEN << <<c[2], y>> >> \o YScan1(nxt, up, k - 1, fuel - 1) ELSE YScan1(nxt, up, k, fuel - 1)
+(* G2, y = y0 + y1 u with one of the components zero *)
+RECURSIVE YScan2(_,_,_,_,_)
+YScan2(y, up, imag, k, fuel) ==
+  IF k = 0 \/ fuel = 0 THEN <<>>
+  ELSE LET yy == IF imag THEN <<Zero, y>> ELSE <<y, Zero>>
+           c == Cbrt2(F2Sub(F2Sqr(yy), <<Four, Four>>))
+           nxt == IF up THEN FqAdd(y, One) ELSE FqSub(y, One)
+       IN IF c[1] THEN << <<c[2], yy>> >> \o YScan2(nxt, up, imag, k - 1, fuel - 1) ELSE YScan2(nxt, up, imag, k, fuel - 1)
+
+BoundaryPts1 == YScan1(HalfQ, FALSE, 2, 40) \o YScan1(FqAdd(HalfQ, One), TRUE, 2, 40)
+                \o YScan1(<<3>>, TRUE, 1, 40) \o YScan1(FqNeg(<<3>>), FALSE, 1, 40)
+BoundaryPts2 == YScan2(HalfQ, FALSE, FALSE, 1, 40) \o YScan2(FqAdd(HalfQ, One), TRUE, FALSE, 1, 40)
+                \o YScan2(<<3>>, TRUE, FALSE, 1, 40) \o YScan2(FqNeg(<<3>>), FALSE, FALSE, 1, 40)
+                \o YScan2(<<5>>, TRUE, TRUE, 1, 40) \o YScan2(FqNeg(<<5>>), FALSE, TRUE, 1, 40)
+ASSUME Len(BoundaryPts1) = 6 /\ \A i \in 1..6 : E1!OnCurve(BoundaryPts1[i])
+ASSUME Len(BoundaryPts2) = 6 /\ \A i \in 1..6 : E2!OnCurve(BoundaryPts2[i])
+
 AffRecOf(g, P) == IF Len(P) = 0 THEN (IF g = "G1" THEN <<Zero, One, TRUE>> ELSE <<F2Zero, F2One, TRUE>>)
                   ELSE <<P[1], P[2], FALSE>>
 JacOf(g, P) == <<P[1], P[2], IF g = "G1" THEN One ELSE F2One>>
@@ -86,10 +139,12 @@ Script(g) ==
       mx == IF g = "G1" THEN Mixed1 ELSE Mixed2
       iv == IF g = "G1" THEN Inv1 ELSE Inv2
       nr == IF g = "G1" THEN NoRoot1(FromInt(1000), 6) ELSE NoRoot2(<<FromInt(1000), <<7>>>>, 4)
+      bp == IF g = "G1" THEN BoundaryPts1 ELSE BoundaryPts2
   IN FlattenSeq([i \in 1..5 |-> CurveOps(g, tp[i], "torsion-prime-order")])
      \o FlattenSeq([i \in 1..Len(mx) |-> CurveOps(g, mx[i], "torsion-mixed")])
      \o FlattenSeq([i \in 1..Len(iv) |-> DecOps(g, iv[i], "invalid-curve-order-r")])
      \o FlattenSeq([i \in 1..Len(nr) |-> XOnlyOps(g, nr[i], "abscissa-without-point")])
+     \o FlattenSeq([i \in 1..Len(bp) |-> CurveOps(g, bp[i], "ordinate-at-sort-boundary")])
 
 RECURSIVE WriteChunks(_,_,_,_)
 WriteChunks(name, s, n, k) ==
